@@ -8,7 +8,6 @@ package animenc
 
 import (
 	"bytes"
-	"encoding/binary"
 	"encoding/hex"
 	"fmt"
 	"image"
@@ -116,12 +115,6 @@ func b2i(b bool) int {
 	}
 	return 0
 }
-
-// Fixes describes which of the proposed repairs the code under test contains
-// (determined by probing it, see ProbeFixes); it selects the model variant.
-type Fixes struct{ Blend, Filler, Alph bool }
-
-func (f Fixes) String() string { return fmt.Sprintf("%d%d%d", b2i(f.Blend), b2i(f.Filler), b2i(f.Alph)) }
 
 // Pad returns the canvas the encoder derives from an input frame (copy to (0,0), clipped).
 func (h *History) Pad(i int) []byte {
@@ -343,9 +336,9 @@ func AlphaPlane(c []byte) []byte {
 }
 
 // CaseLine renders the history with the recorded oracle for the model runner.
-func (h *History) CaseLine(mode string, fx Fixes, o *Outcome) string {
+func (h *History) CaseLine(mode string, o *Outcome) string {
 	var sb strings.Builder
-	fmt.Fprintf(&sb, "enc %s %s %d %d %d %d %d %d %d %d %d %d", mode, fx, h.W, h.H, h.Loop, h.Kmin, h.Kmax,
+	fmt.Fprintf(&sb, "enc %s %d %d %d %d %d %d %d %d %d %d", mode, h.W, h.H, h.Loop, h.Kmin, h.Kmax,
 		b2i(h.Lossless), b2i(h.Mixed), h.Quality, b2i(o.Simple), len(h.Frames))
 	for i, f := range h.Frames {
 		var so StepOracle
@@ -419,32 +412,3 @@ func ClampLoop(v int) int {
 	return v
 }
 
-// ProbeFixes determines which repairs the code under test contains.
-func ProbeFixes() Fixes {
-	var fx Fixes
-	// (i) an unchanged semi-transparent pixel must forbid blending.
-	a := image.NewNRGBA(image.Rect(0, 0, 1, 1))
-	copy(a.Pix, []byte{10, 20, 30, 128})
-	b := image.NewNRGBA(image.Rect(0, 0, 1, 1))
-	copy(b.Pix, []byte{10, 20, 30, 128})
-	fx.Blend = !animation.VerifIsLosslessBlendingPossible(a, b, image.Rect(0, 0, 1, 1))
-	// (ii) after an overflow filler frame prevFrameRect must describe the filler.
-	var buf bytes.Buffer
-	e := animation.NewEncoder(&buf, 4, 4, &animation.EncodeOptions{Lossless: true})
-	im := image.NewNRGBA(image.Rect(0, 0, 4, 4))
-	for i := range im.Pix {
-		im.Pix[i] = 255
-	}
-	e.AddFrame(im, 0xFFFFFF*time.Millisecond)
-	e.AddFrame(im, 10*time.Millisecond)
-	_, _, pr, _, _, _, _ := animation.VerifEncoderState(e)
-	fx.Filler = pr == image.Rect(0, 0, 1, 1)
-	// (iii) a lossy frame with transparency must reach the muxer ALPH-prefixed.
-	t := image.NewNRGBA(image.Rect(0, 0, 4, 4))
-	for i := 0; i < 16; i++ {
-		t.Pix[i*4], t.Pix[i*4+3] = 200, byte(255*(i&1))
-	}
-	bs, err := animation.FrameEncoderFunc(t, false, 75)
-	fx.Alph = err == nil && len(bs) >= 8 && binary.LittleEndian.Uint32(bs[0:4]) == mux.FourCCALPH
-	return fx
-}
